@@ -11,6 +11,7 @@ mod g_hashable;
 mod g_quote;
 mod g_take;
 mod g_token;
+mod g_types;
 
 use std::path::Path;
 
@@ -30,6 +31,7 @@ fn main() {
             "quote" => g_quote::generate(repo),
             "hashable" => g_hashable::generate(repo),
             "take" => g_take::generate(repo),
+            "types" => g_types::generate(repo),
             _ => Err(format!("unknown group {g}")),
         };
         match r {
